@@ -311,6 +311,8 @@ class Builder:
             isinstance(built_count, Constant) and isinstance(built_count.value, float)
         ):
             raise JaqalError(f"Loop count must be an integer, found {count}")
+        if not isinstance(built_count, (int, Constant, Parameter)):
+            raise JaqalError(f"Loop count must be an integer, found {count}")
         built_block = self.build(block, context, gate_context)
         return LoopStatement(built_count, built_block)
 
@@ -342,6 +344,12 @@ class Builder:
                 built_count = 1
             else:
                 built_count = self.build(count, context, gate_context)
+                if built_count is not None and not isinstance(
+                    built_count, (int, float, Constant, Parameter)
+                ):
+                    raise JaqalError(
+                        f"Subcircuit count must be an integer, found {count}"
+                    )
         return BlockStatement(
             statements=statements, subcircuit=True, iterations=built_count
         )
